@@ -22,7 +22,7 @@ type mSel struct {
 var mSels = []mSel{
 	{1, "a", true, false}, {2, "b", true, false}, {3, "div", true, false}, {4, ".c1", true, false}, {5, "a:hover", true, false},
 	{6, "x-el", false, false}, {7, "a>b", false, false}, {8, "b:focus", false, false}, {9, ":is()", false, true}, {10, "a:is()", false, true},
-	{11, "#i1", true, false}, {12, "a::before", false, false}, {13, "a b", true, false}, {14, "a[x=y i]", false, false}, {15, "a:first-child", true, false},
+	{11, "#i1", true, false}, {12, "a::before", false, false}, {13, "a b", true, false}, {14, "a[x=y i]", false, false}, {15, "a:first-child", true, false}, {16, "b:focus-visible", false, false}, {17, "b:hover", true, false}, {18, "b:first-child:hover", true, false}, {19, "a:nth-child(2)", false, false},
 }
 var mProps = []string{"", "color", "order", "z-index"}
 var mVals = []string{"", "red", "tan", "1", "2"}
